@@ -325,4 +325,56 @@ MUTANTS = [
                                 error,
                                 ErrorKind::Unexpected {
                                     msg: format!("the key""")]},
+    # ------------------------------------------------------------------ C16
+    {"id": "c16-d4-default-span-not-stored", "props": ["C16"], "edits": [(AP, "            self.default_span = other.default_span;\n", "")]},
+    {"id": "c16-d3-rename-all-span-not-stored", "props": ["C16"], "edits": [(AP, "            self.rename_all_span = other.rename_all_span;\n", "")]},
+    {"id": "c16-d3-tag-span-not-stored", "props": ["C16"], "edits": [(AP, "            self.tag_span = other.tag_span;\n", "")]},
+    {"id": "c16-d3-validate-direct-write", "props": ["C16"], "edits": [(AP, "                    other.validate = Some(validate_func);\n                    other.validate_span = Some(attr_name.span());", "                    this.validate = Some(validate_func);")]},
+    {"id": "c16-d3-variant-rename-direct", "props": ["C16"], "edits": [(AP, "                    other.rename = Some(parse_rename(input)?);\n                }\n                \"rename_all\" => {", "                    this.rename = Some(parse_rename(input)?);\n                }\n                \"rename_all\" => {")]},
+    {"id": "c16-validate-call-removed", "props": ["C16"], "edits": [(PT, "        validate_container_attributes(&attrs, &input)?;", "        let _ = validate_container_attributes(&attrs, &input);")]},
+    {"id": "c16-unknown-field-attr-ignored", "props": ["C16"], "edits": [(AP, """                _ => {
+                    let message = format!("Unknown deserr field attribute: {}", attr_name);
+                    return Result::Err(syn::Error::new_spanned(attr_name, message));
+                }""", """                _ => {
+                    let _ = input.parse::<proc_macro2::TokenTree>();
+                }""")]},
+    {"id": "c16-from-tryfrom-prefers-tryfrom", "props": ["C16"], "edits": [(AP, """            } else if let Some(self_try_from) = &self.try_from {
+                return Err(syn::Error::new(
+                    self_try_from.span,
+                    "The `from` and `try_from` attributes can't be used together.",
+                ));
+            }
+            self.from = Some(from)""", """            } else if let Some(_self_try_from) = &self.try_from {
+                return Ok(());
+            }
+            self.from = Some(from)""")]},
+    {"id": "c16-union-empty-impl", "props": ["C16"], "edits": [(PT, """                Data::Union(u) => {
+                    return Err(syn::Error::new(
+                        u.union_token.span,
+                        "Unions aren't supported by the Deserr derive macro",
+                    ))
+                }""", """                Data::Union(_u) => {
+                    TraitImplementationInfo::Enum { tag: TagType::External, variants: vec![] }
+                }""")]},
+    {"id": "c16-second-attr-not-deserr-skipped", "props": ["C16"], "edits": [(AP, """    let mut this = FieldAttributesInfo::default();
+    for attribute in attributes {
+        if let Some(ident) = attribute.path().get_ident() {
+            if ident != "deserr" {
+                continue;
+            }""", """    let mut this = FieldAttributesInfo::default();
+    for attribute in attributes {
+        if let Some(ident) = attribute.path().get_ident() {
+            if ident != "deserr" || this.skipped {
+                continue;
+            }""")]},
+    {"id": "c16-trailing-tokens-ignored", "props": ["C16"], "occurrence": 2, "edits": [(AP, """            } else {
+                return Result::Err(syn::Error::new(input.span(), "Expected end of attribute"));
+            }""", """            } else {
+                let _ = input.parse::<proc_macro2::TokenStream>();
+                break;
+            }""")]},
+    {"id": "c16-untagged-guard-any", "props": ["C16"], "edits": [("derive/src/lib.rs", """                        .iter()
+                        .all(|variant| matches!(variant.data, VariantData::Unit)) =>""", """                        .iter()
+                        .any(|variant| matches!(variant.data, VariantData::Unit)) =>""")]},
+    {"id": "c16-tag-on-struct-allowed", "props": ["C16"], "edits": [(AP, "    if matches!(container.data, syn::Data::Struct(..)) {", "    if matches!(container.data, syn::Data::Union(..)) {")]},
 ]
